@@ -166,6 +166,11 @@ class PropScenario(explore.Scenario):
                     evs.append(('assign', name, ki, 2))
                 for vi in (0, 1):
                     if w.store[name][k] == VALUES[sig][vi]:
+                        # the value it already has, once more: an
+                        # assignment (and a Set) like any other, with its
+                        # notification
+                        evs.append(('assign', name, ki, vi))
+                        evs.append(('set', name, ki, vi, 'right'))
                         continue
                     evs.append(('assign', name, ki, vi))
                     for how in ('right', 'empty', 'other'):
